@@ -50,7 +50,8 @@ const (
 )
 
 // Tracked denominations of the abstract ledger.
-var trackedDenoms = []string{"uusdc", "ustake"}
+// "ibc" is a pseudo-denom: the sum of all ibc/HASH vouchers.
+var trackedDenoms = []string{"uusdc", "ustake", "uswap", "ibc"}
 
 // World is one app instance plus the concretisation tables.
 type World struct {
